@@ -1,3 +1,3 @@
 SPECIFICATION Spec
 CONSTANT Scenarios <- ScenariosFromFile
-INVARIANTS TypeOK WriteOrder EndsWithCommit Recoverable
+INVARIANTS TypeOK WriteOrder EndsWithCommit SysWriteOrder SysEndsWithCommit LayersAgree Recoverable
